@@ -158,11 +158,9 @@ def check(model: Model, run: Run) -> None:
         if isinstance(e, ast.Call):
             if isinstance(e.func, ast.Name) and e.func.id == 'decoder' and e.args:
                 k = e.args[1] if len(e.args) > 1 else None
-                kq = [q for q in (model.callees(mod, ast.Call(func=k, args=[], keywords=[])) if False else [])]
                 if k is None:
                     return True  # decoder(function) wraps in NumericValue
                 kd = dotted(k) or ''
-                full = mod.imports.get(kd.split('.')[0], '')
                 cands = [q for q in model.classes if q.endswith('.' + kd.rsplit('.', 1)[-1])]
                 return any(model.is_subclass(q, BASEV) for q in cands)
             for q in model.callees(mod, e):
